@@ -2,7 +2,7 @@
 
 Privacy.tla (TLC): SaltFresh per key installation, with the counter modelled modulo 8 (wrap reasoning).
 Long single-session runs of mixed request types interleaved with encrypted replies, plaintext reports, timeouts
-and set_keys() are recorded from real DES / AES sessions; TraceSession.tla (Props = {C14}) reads
+and set_keys() (accepted and refused) are recorded from real DES / AES sessions; TraceSession.tla (Props = {C14}) reads
 msgPrivacyParameters and msgFlags of every datagram: 8 octets, never seen before within the key installation,
 previous + 1 (DES: boots || 32-bit counter, AES: 64-bit counter), priv flag set, msgData an OCTET STRING, and the
 request's OID octets occur nowhere in the datagram."""
@@ -28,6 +28,8 @@ def long_script(rng, n):
             s.append({"a": "timeout"})
         elif c < 0.88:
             s.append({"a": "set-keys"})
+        elif c < 0.91:
+            s.append({"a": "set-keys-bad"})      # refused installation: the counter of the installation in force goes on
         # else: abandoned, next send follows directly
     return s
 
